@@ -129,6 +129,9 @@ def judge(prop, r, cfg):
                     out.append(("fl", "%s overstated" % nm, True))
         if im.get("mfl") != im.get("fl"):
             out.append(("mfl", "mdspan reports %s but its mapping reports %s" % (im.get("mfl"), im.get("fl")), True))
+        afl = im.get("afl")
+        if afl and len(afl) == 6 and len(fi) == 6 and any(a != "x" and a != b for a, b in zip(afl, fi)):
+            out.append(("afl", "mdarray reports %s (is_unique, is_exhaustive, is_strided, is_always_unique, is_always_exhaustive, is_always_strided; x = no instance built) but its mapping reports %s" % (afl, fi), True))
     elif prop == "C13":
         for f in ("sz", "emp", "mext", "mst", "rk", "sext"):
             if differs(f):
